@@ -150,13 +150,6 @@ func gen(t *rapid.T) Case {
 		c.GapsUS = append(c.GapsUS, rapid.SampledFrom([]int64{0, 0, 200, 1500, 4000}).Draw(t, "gapUS"))
 	}
 
-	if rapid.IntRange(0, 3).Draw(t, "longGap") == 0 {
-		// one think time of the peer well inside what the socket timeout allows between segments
-		// (a tenth, or a thirty-second, of it)
-		div := rapid.SampledFrom([]int64{10, 32}).Draw(t, "longGapDiv")
-		c.GapsUS[rapid.IntRange(0, len(c.GapsUS)-1).Draw(t, "longGapAt")] = int64(c.TimeoutMS) * 1000 / div
-	}
-
 	if big {
 		// kilobytes in a handful of segments, without think time
 		c.Splits, c.GapsUS = []int{0, 1400, 700}, []int64{0, 0, 0}
